@@ -47,6 +47,10 @@ func (m *vertexMaker) make(i int) interface{} {
 	case 5:
 		// hashable vertices with distinct hash codes and one display name per pair
 		return &nv{K: i}
+	case 7:
+		// a vertex that is NOT comparable (it holds a slice) and therefore
+		// brings its own hash code
+		return uv{K: i, Pad: []int{i}}
 	case 6:
 		// a vertex that delegates its identity to a key object which is
 		// itself hashable (mutation histories of C19 only: KahnSort hashes
@@ -88,6 +92,21 @@ func (d *dv) Hashcode() interface{} { return dkey{d.K} }
 type dkey struct{ K int }
 
 func (k dkey) Hashcode() interface{} { return fmt.Sprintf("rehashed-%d", k.K%2) }
+
+// uv is not comparable: using it as a map key or comparing two of them with
+// == panics; its hash code is what identifies it.
+type uv struct {
+	K   int
+	Pad []int
+}
+
+func (u uv) Hashcode() interface{} { return u.K }
+func (u uv) String() string        { return fmt.Sprintf("uv%d", u.K) }
+
+// kindUncomparable is the vertex flavour of uv. It is not among the flavours
+// drawn at random (nVertexKinds): monitors switch to it for a fixed,
+// index-determined subset of their cases.
+const kindUncomparable = 7
 
 // nv: hash code K, display name shared by K and K^1.
 type nv struct{ K int }
@@ -444,6 +463,10 @@ func runC18(c *CaseCtx) (res CaseResult) {
 		res.obs("huge_weight_graphs", 1)
 	}
 	vm := &vertexMaker{kind: r.Intn(nVertexKinds)}
+	if c.Idx%13 == 5 {
+		vm.kind = kindUncomparable
+		res.obs("graphs_over_uncomparable_vertices", 1)
+	}
 	res.Key = ref.String()
 	ne := 0
 	for i := range ref.w {
@@ -796,6 +819,10 @@ func runC19(c *CaseCtx) (res CaseResult) {
 		return runC19NilVertex(c, r)
 	}
 	vm := &vertexMaker{kind: r.Intn(nVertexKinds + 1)}
+	if c.Idx%13 == 5 {
+		vm.kind = kindUncomparable
+		res.obs("histories_over_uncomparable_vertices", 1)
+	}
 	nv := 2 + r.Intn(5)
 	nops := 1 + r.Intn(60)
 	// churn (1 case in 24): a large graph is built, views are taken, and
@@ -1403,6 +1430,10 @@ func runC20(c *CaseCtx) (res CaseResult) {
 	}
 	ref := randomRef(r, 10)
 	vm := &vertexMaker{kind: r.Intn(nVertexKinds)}
+	if c.Idx%13 == 5 {
+		vm.kind = kindUncomparable
+		res.obs("graphs_over_uncomparable_vertices", 1)
+	}
 	res.Key = ref.String()
 	ne := 0
 	for i := range ref.w {
